@@ -187,8 +187,62 @@ def reap_forwarding_rule(ctx, rid):
     return rr
 
 
+def sow_constants_rule(ctx, rid):
+    """Constants given at sowing are arguments of the evaluation just like a
+    direct run's `constants=`: they must be persisted and label the reaped
+    data, not only be passed to the function."""
+    rr = ctx.rule(rid, "constants given to sow_* are persisted with the crop and label the reaped data as in a direct run", floor=2)
+    prog = ctx.prog
+    crop = prog.need_cls(CROP + ".Crop")
+    si = crop.methods["save_info"]
+    rec = None
+    for nd, c, nm in all_calls(ctx, si):
+        if nm == CROP + ".write_to_disk" and c.args and isinstance(c.args[0], ast.Dict):
+            rec = c.args[0]
+    need(rec is not None, "idiom changed: save_info record")
+    keys = {k.value: norm(v) for k, v in zip(rec.keys, rec.values) if isinstance(k, ast.Constant)}
+    for name in ("sow_combos", "sow_cases"):
+        m = crop.methods[name]
+        ctx.touch(m)
+        if "constants" not in m.params:
+            rr.ok("%s takes no constants" % name)
+            continue
+        prep = [c for nd, c, nm in all_calls(ctx, m) if nm == CROP + ".Crop.prepare"]
+        need(prep, "anchor lost: %s prepare" % name)
+        pk = arg(prep[0], None, "constants")
+        if "constants" in keys and pk is not None:
+            # must be the explicit constants, not the merge with the farmer's
+            d = single_def(m, pk.id) if isinstance(pk, ast.Name) else None
+            src = norm(d[1]) if d else norm(pk)
+            if "self.parse_constants" in src or "runner" in src:
+                rr.bad(ctx.finding(rid, m, prep[0], "%s persists the constants already merged with the farmer's (%s): resources would be recorded" % (name, src), construct="sow-constants-merged " + name), "%s persists explicit constants" % name)
+            else:
+                rr.ok("%s persists its explicit constants (%s)" % (name, src))
+        else:
+            rr.bad(ctx.finding(rid, m, prep[0], "%s(constants=...) hands its constants to the function but does not persist them with the crop: the reaped Dataset / DataFrame is labelled with the farmer's stored constants instead of the ones the values were computed with (a direct run records the call's constants)" % name,
+                               construct="sow-constants-not-persisted " + name), "%s persists constants" % name)
+    rrn = crop.methods["reap_runner"]
+    ctx.touch(rrn)
+    calls = [c for nd, c, nm in all_calls(ctx, rrn) if nm == CROP + ".Crop.reap_combos_to_ds"]
+    need(calls, "anchor lost: reap_runner -> reap_combos_to_ds")
+    cv = arg(calls[0], None, "constants")
+    txt = norm(cv) if cv is not None else ""
+    expanded = txt
+    for nmx in names_in(cv) if cv is not None else ():
+        d = single_def(rrn, nmx)
+        if d:
+            expanded += " " + norm(d[1])
+    if "constants" in keys:
+        if "runner._constants" in expanded and ("load_info" in expanded or "settings" in expanded) and "'constants'" in expanded:
+            rr.ok("reap_runner labels with the runner's constants overridden by the crop's persisted ones")
+        else:
+            rr.bad(ctx.finding(rid, rrn, calls[0], "reap_runner labels the data with `%s`, ignoring the constants persisted at sowing" % txt, construct="reap-ignores-sown-constants"), "reap uses sown constants")
+    return rr
+
+
 def run(ctx):
     parity_rule(ctx, "C06.R1")
+    sow_constants_rule(ctx, "C06.R7")
     shared.precedence_rule(ctx, "C06.R2")
     last_result_rule(ctx, "C06.R3")
     persistence_rule(ctx, "C06.R4")
